@@ -209,6 +209,8 @@ class Acc:
 # worker side
 
 def _worker_init():
+    import warnings
+    warnings.filterwarnings("ignore", message="Generating overly large repr")
     quiet_stdout()
 
 
